@@ -558,6 +558,8 @@ def c18_doc(c):
         head += ['@pytest.fixture(scope="session")', "def local_ses():", "    return 2", "", ""]
     name = {"test": "test_e", "fixture": "local_ses", "helper": "helper_e"}[kind]
     deco = ['@pytest.fixture(scope="%s")' % SC[scope]] if kind == "fixture" else []
+    if c.get("stacked"):
+        deco = deco + ["@other.decorator(1)"]
     params = ", ".join(declared)
     tail = ["", "", "x_after = 1", ""]
     cur = None
@@ -671,10 +673,10 @@ def check_c18(tier):
     results = lsp.run_parallel(list(enumerate(cases)), session, workers=8)
     for c, r in zip(cases, results):
         V.count()
-        V.nontriv(json.dumps({k: c[k] for k in ("role", "kind", "scope", "declared")}, sort_keys=True))
+        V.nontriv(json.dumps({k: c[k] for k in ("role", "kind", "scope", "declared", "stacked")}, sort_keys=True))
         if r is None or "__exception__" in r:
             raise C.ToolError("LSP session failed: %r" % (r,))
-        ex = {"role": c["role"], "kind": c["kind"], "scope": c["scope"], "declared": c["declared"],
+        ex = {"role": c["role"], "kind": c["kind"], "scope": c["scope"], "declared": c["declared"], "stacked": c["stacked"],
               "cursor": [r.get("line"), r.get("col")], "text": r.get("text")}
         if "error" in r:
             V.violation(dict(ex, error=r["error"]), "server died or did not answer a completion request")
